@@ -91,6 +91,17 @@ def systemArgv (a : Args) (t : System) : List Bytes :=
   let base := if t.override ≠ [] then t.override else buildOpenArgs a t.ssh t.extra
   if t.ssh.netconf then base ++ [b!"-s", b!"netconf"] else base
 
+/-- bytes of the fixed option syntax: ASCII letters, digits, `-`, `=`, `/` -/
+def isOptionByte (b : UInt8) : Bool :=
+  isDigit b || (65 ≤ b && b ≤ 90) || (97 ≤ b && b ≤ 122) || b == 45 || b == 61 || b == 47
+
+/-- `m` is a marker byte: it occurs in none of the inputs other than the password, nor in the
+fixed option syntax (domain predicate of `argv_no_password`) -/
+def markerB (m : UInt8) (a : Args) (t : System) : Bool :=
+  !isOptionByte m && !a.host.contains m && !a.user.contains m && !t.ssh.knownHostsFile.contains m &&
+  !t.ssh.configFile.contains m && !t.ssh.privateKeyPath.contains m &&
+  t.extra.all (fun x => !x.contains m) && t.override.all (fun x => !x.contains m)
+
 inductive Err | badOption | keyFile | knownHostsFile
   deriving DecidableEq, Repr
 
